@@ -176,4 +176,73 @@ Definition spec_okb (i : input) (o : obs) : bool :=
       && forallb_idx (stream_worker_okb (si_base si) (o_raised o) (o_trace o)) 0 (firstn k (si_suites si))
   end.
 
+(* ---------- the readable statement ---------- *)
+(* how many process results the except clause reaches: all of the unreaped ones, unless a stop() of the
+   caller's result itself raised - then those up to and including that one *)
+Definition stops_expected (fl : list bool) (len : nat) : nat :=
+  match fl with
+  | [] => len
+  | fl => if existsb (fun b => b) fl then upto_first_true fl else len
+  end.
+
+Definition Common (n : nat) (mt : option nat) (o : obs) : Prop :=
+  let k := started n mt in
+  let unreaped := filter (fun w => negb (memb w (joins (o_trace o)))) (seq 0 k) in
+  o_deadlock o = false                                                    (* run() ends *)
+  /\ (forall e, In e (o_trace o) -> own_thread k e = true)
+  /\ spawns (o_trace o) = seq 0 k                                          (* every yielded sub-suite started once, in its own thread *)
+  /\ length (o_live o) = k
+  /\ (o_raised o = false -> forall b, In b (o_live o) -> b = false)        (* returns only after all have finished *)
+  /\ (o_raised o = true <->                                                (* the exception propagates, and only then *)
+      (mt_raises n mt = true \/ has_intr (o_trace o) = true \/ status_raised (o_trace o) = true))
+  /\ (o_raised o = false -> o_stops o = [])
+  /\ (o_raised o = true ->                                                 (* every started, unreaped worker is told to stop *)
+      o_stops o = firstn (stops_expected (main_stops (o_trace o)) (length unreaped)) unreaped).
+
+(* stream: what main passed on for worker w is, event for event, what w emitted (its own route code
+   under w's), each with a timestamp; all of it when run() returned normally *)
+Definition StreamWorker (base raised : bool) (tr : list (tid * cev)) (w : nat) (s : list sitem) : Prop :=
+  let d := delivered w tr in
+  let exp := ev_of (emits w base s) in
+  (forall x, In x d -> snd (fst x) = true)
+  /\ (exists rest, map (fun x => fst (fst x)) d ++ rest = exp)
+  /\ (raised = false -> map (fun x => fst (fst x)) d = exp).
+
+(* the block of the errored broken-runner test *)
+Definition BrokenRunnerBlock (body : list gev) : Prop :=
+  exists t0 t1 tags, length tags <= 2 /\
+    body = [ECall (TTime t0) false; ECall (TStartTest br_id) false; ECall (TTime t1) false]
+           ++ map (fun g => ECall (TTags g) false) tags
+           ++ [ECall (TOutcome KError br_id) false; ECall (TStopTest br_id) false].
+
+(* classic: the part of the caller's-result log made by worker w (not hit by faults of the caller's result,
+   reporting well-formed tests up to the point where its run() raises, if it does) is exactly the expected
+   log of its tests in its order (Spec.C12.expected), followed - when run() raised an Exception - by one
+   errored broken-runner test *)
+Definition ClassicWorker (base : bool) (lg : list (tid * gev)) (w : nat) (sf : list rcall * list nat) : Prop :=
+  let pre := fst (before_raise (fst sf)) in
+  let raises := snd (before_raise (fst sf)) in
+  snd sf = [] -> wf_script Out pre = true ->
+  if raises && negb base
+  then exists body, proj (S w) lg = expected [] pre sst0 0 ++ section body /\ BrokenRunnerBlock body
+  else proj (S w) lg = expected [] pre sst0 0.
+
+Definition Spec (i : input) (o : obs) : Prop :=
+  match i with
+  | IClassic ci =>
+      let n := length (ci_suites ci) in
+      let k := started n (ci_mt_raise ci) in
+      Common n (ci_mt_raise ci) o
+      /\ o_sem_free o = true
+      /\ Sectioned (S k) (cg_log (o_trace o))                              (* one test at a time *)
+      /\ (forall w sf, w < k -> nth_error (ci_suites ci) w = Some sf ->
+            ClassicWorker (ci_base ci) (cg_log (o_trace o)) w sf)
+  | IStream si =>
+      let n := length (si_suites si) in
+      let k := started n (si_mt_raise si) in
+      Common n (si_mt_raise si) o
+      /\ (forall w s, w < k -> nth_error (si_suites si) w = Some s ->
+            StreamWorker (si_base si) (o_raised o) (o_trace o) w s)
+  end.
+
 Definition findings (i : input) : list nat := [].
